@@ -144,6 +144,27 @@ CLAIMED["C24"] = dict(
     ref="DESIGN.md 4/C24",
 )
 
+CLAIMED["C03"] = dict(
+    technique="shape checks on encoder/sequence.py and the data-unit builders of encoder/pictures.py: per-picture units in input order and FIFO hand-out (def-use), profile -> parse-code table agreement with vc2_data_tables.PROFILES, picture-number provenance and who-may-write, counting argument over the fragment loop (every slice once, raster order, new fragment exactly when full, offsets of first slice); re-evaluation of the shared clauses C19.e, C07.c, C15.e",
+    text="Acceptance by the validator and equality of decoded pictures for all configurations are behaviour and are not decided. Decided: one picture's data units per input picture, in order, handed out where the ordering search placed picture symbols; parse codes follow the profile and fragment setting as the data tables allow; picture/fragment headers carry the input's pic_num and nothing else writes it; fragments carry every slice exactly once with the offsets of their first slice; patterns, version rules and level-filtered headers as in C19.e/C07.c/C15.e. Header contents are C15's claim, level values C16's, pixel exactness C04/C11's.",
+    note="Thin. Trusted: vc2_data_tables PROFILES parsed from the installed package source.",
+    ref="DESIGN.md 4/C03, 10",
+)
+
+CLAIMED["C05"] = dict(
+    technique="field-effect (who-may-write) analysis: transitive store sets, through helpers, of the nine decoder test case generators that vary only the encoding, compared with the closed set of content-determining bitstream fields; provenance checks of the three sanctioned content stores; source-sequence construction check; name distinctness (generators, literal sub-case names)",
+    text="Validator acceptance and equality of decoded pictures per test case are behaviour and are not decided. Decided necessary condition for 'decodes to the pictures of the plain encoding': an encoding-only generator stores into no content field except (i) whole sequence headers obtained from iter_sequence_headers(codec_features) and (ii) wavelet_index_ho/dwt_depth_ho set to the configured values together with their flags; each builds its source with make_sequence(codec_features, <picture generator>); generator and literal sub-case names are distinct.",
+    note="Trusted: list of content fields. Not decided: slice length / padding arithmetic inside the slice-level generators; mid-grey and picture-number clauses.",
+    ref="DESIGN.md 4/C05, 10",
+)
+
+CLAIMED["C08"] = dict(
+    technique="closed classification of every not-in-spec statement of the description program bitstream/vc2.py (bookkeeping without reads; loop headers with hoisted pseudocode bounds; enum-robustness substitutions matched to the validator's assert_in_enum; byte-count substitution compared as a linear form with the commented-out pseudocode; slice-length clamp matched to the validator's raise) and comparison of BitstreamReader's bounded-block discipline with pinned read_bitb / flush_inputb",
+    text="Equality of everything the two parsers read, for all accepted streams, is behaviour. Both are pinned line by line to the standard's pseudocode by the repository's own test; what is decided here is that each of the deserialiser's 38 non-spec statements is either free of stream reads or the identity on streams the validator accepts, that padding/auxiliary byte counts equal the pseudocode's trip count, and that the bounded-block reader consumes exactly n bits and then yields 1s, handing back max(0, remaining). Dequantisation/DC prediction of deserialised coefficients is test tooling and not decided.",
+    note="Thin. Trusted: pinned lines equal the standard (tests/verification); linear-form normaliser.",
+    ref="DESIGN.md 4/C08, 10",
+)
+
 CLAIMED["C09"] = dict(
     technique="must/may event flow over picture_decode (ordering of inverse transform, clip, offset before the output callback; single invocation; argument wiring) and call-site placement of picture_decode in parse_sequence; completion-flag provenance",
     text="Sample ranges and dimensions come from spec-pinned arithmetic and are not decided. Decided on all paths: what reaches the output callback has been transformed, clipped and offset in that order; the callback runs at most once per decoded picture with the right arguments; the picture number is the coded one; a picture is decoded exactly once per picture data unit and once per completed fragmented picture.",
